@@ -139,6 +139,19 @@ ABI_CUT_NOINSERT = ABI_CUT.replace("seen_exprs.insert(type_expr.clone());", "")
 ABI_PACKED_HEAD = ("TE::Packed{types,is_struct}=>{let mut pairs=Vec::new();for Span{typ,offset,..}in types{"
                    "match self.abi_type_for_impl(typ,seen_exprs,ParentType::Packed)?{AbiValue::Packed(xs)=>{"
                    "pairs.extend(xs.into_iter().map(|(ty,ofs)|%s));}AbiValue::Type(ty)=>pairs.push((ty.clone(),offset))}}")
+# repaired (nested packed encodings must stay inside the word the span starts in): the flattening is guarded
+ABI_PACKED_HEAD_FIT = ("TE::Packed{types,is_struct}=>{let mut pairs=Vec::new();for Span{typ,offset,..}in types{"
+                       "match self.abi_type_for_impl(typ,seen_exprs,ParentType::Packed)?{AbiValue::Packed(xs)=>{"
+                       "let start_in_word=offset%%WORD_SIZE_BITS;"
+                       "let fits=xs.iter().all(|(ty,ofs)|{let start=start_in_word.saturating_add(*ofs);"
+                       "start<WORD_SIZE_BITS&&ty.bit_width().map_or(true,|w|start.saturating_add(w)<=WORD_SIZE_BITS)});"
+                       "if fits{pairs.extend(xs.into_iter().map(|(ty,ofs)|%s));}else{pairs.push((AbiType::Any,offset));}}"
+                       "AbiValue::Type(ty)=>pairs.push((ty.clone(),offset))}}")
+# AbiType::bit_width (src/tc/abi.rs): recognised arms -> (names, kind)
+BIT_WIDTH_ARMS = {
+    "*size": "BwField", "*length": "BwField",
+    "length.map(|l|l.saturating_mul(BYTE_SIZE_BITS))": "BwBytes",
+}
 IS_TC = ("match self{Self::Any|Self::Word{..}|Self::Conflict{..}|TE::Bytes=>false,"
          "Self::FixedArray{..}|Self::Mapping{..}|Self::DynamicArray{..}|Self::Equal{..}|Self::Packed{..}=>true}")
 
@@ -467,9 +480,14 @@ def step_rules(repo, out, consts):
     else:
         problems.append("abi_type_for_impl: head (type_of, seen cut, insertion, location) not recognised: " + nb[:300])
     add_kind = None
+    nested_fit = None
     for atxt, (kind, term) in ABI_ADD.items():
         if (ABI_PACKED_HEAD % atxt) in nb:
             add_kind = (kind, term, atxt)
+            nested_fit = "unchecked"
+        if (ABI_PACKED_HEAD_FIT % atxt) in nb:
+            add_kind = (kind, term, atxt)
+            nested_fit = "checked"
     if add_kind is None:
         problems.append("abi_type_for_impl: the Packed arm / nested offset accumulation is not recognised")
         add_kind = ("checked", ABI_ADD["(ty,ofs+offset)"][1], "?")
@@ -486,6 +504,41 @@ def step_rules(repo, out, consts):
     for u in ("Bool", "Address", "Selector", "Function"):
         if ("WordUse::%s=>{if width!=usage.size(){return Err(Error::InvalidInference{" % u) not in nb:
             problems.append("abi_type_for_impl: width check of %s not found" % u)
+
+    # ---- AbiType::bit_width (src/tc/abi.rs)
+    bw_rows = []
+    asrc = read(repo, "src/tc/abi.rs")
+    b = fn_body(asrc, r"pub fn bit_width\(&self\)\s*->\s*Option<usize>\s*")
+    if b is None:
+        if nested_fit == "checked":
+            problems.append("AbiType::bit_width not found although abi_type_for_impl uses it")
+    else:
+        mm = re.fullmatch(r"match self\{(.*)\}", nn(b))
+        if not mm:
+            problems.append("AbiType::bit_width: body is not a single match: " + nn(b)[:200])
+        else:
+            arms = match_arms(mm.group(1))
+            if not arms or arms[-1] != ("_", "None"):
+                problems.append("AbiType::bit_width: the last arm is not `_ => None`")
+            for pat, rhs in arms[:-1]:
+                for alt in split_top(pat, "|"):
+                    m1 = re.fullmatch(r"Self::(\w+)(?:\{(\w+)\})?", alt)
+                    if not m1:
+                        problems.append("AbiType::bit_width: pattern not recognised: " + alt)
+                        continue
+                    name, field = m1.group(1), m1.group(2)
+                    m2 = re.fullmatch(r"Some\(([A-Z_]+)\)", rhs)
+                    if m2 and field is None:
+                        if m2.group(1) not in consts:
+                            problems.append("AbiType::bit_width: unknown constant " + m2.group(1))
+                        bw_rows.append((name, "BwConst %s" % m2.group(1)))
+                    elif rhs in BIT_WIDTH_ARMS and field is not None and rhs.lstrip("*").startswith(field):
+                        bw_rows.append((name, BIT_WIDTH_ARMS[rhs]))
+                    else:
+                        problems.append("AbiType::bit_width: arm not recognised: %s => %s" % (alt, rhs))
+            names = [n for n, _ in bw_rows]
+            if len(names) != len(set(names)):
+                problems.append("AbiType::bit_width: a variant has several arms")
 
     # ---- output
     s = HEADER + "(* T9: registration / inference rules / abi_type_for anchors (tools/tr_rules.py) *)\n"
@@ -519,11 +572,19 @@ def step_rules(repo, out, consts):
     s += "(* tc/mod.rs abi_type_for_impl: nested packed offset -- %s *)\n" % add_kind[2]
     s += "Definition abi_nested_add (ofs offset : N) : outcome N unit := %s.\n" % add_kind[1]
     s += "Definition abi_seen_insert : bool := %s.\n" % ("true" if seen_insert else "false")
+    s += "(* tc/mod.rs abi_type_for_impl: a nested packed encoding is flattened only when every element stays inside the\n"
+    s += "   word its span starts in (true), or unconditionally (false: the pinned text) -- %s *)\n" % (nested_fit or "not recognised")
+    s += "Definition abi_nested_fit : bool := %s.\n" % ("true" if nested_fit == "checked" else "false")
+    s += "(* tc/abi.rs AbiType::bit_width: variant -> how its width is obtained (every other variant: None) *)\n"
+    s += "Inductive bw_kind := BwField | BwBytes | BwConst (n : N).\n"
+    s += "Definition bit_width_table : list (string * bw_kind) := [" + "; ".join(
+        "(%s, %s)" % (coq_str(n), k) for n, k in bw_rows) + "].\n"
     s += "Definition arith_kinds : list (string * string) := [(\"call_data\", \"%s\"); (\"mapping\", \"%s\"); (\"abi_add\", \"%s\")]%%string.\n" % (
         anchors["call_data"][0], anchors["mapping"][0], add_kind[0])
     write_if_changed(os.path.join(out, "RulesSig.v"), s)
     info.update({"stable": stable, "table_rules": {r: len(tables.get(r, [])) for r in TABLE_RULES},
-                 "arith": {"call_data": anchors["call_data"][0], "mapping": anchors["mapping"][0], "abi_add": add_kind[0]}})
+                 "arith": {"call_data": anchors["call_data"][0], "mapping": anchors["mapping"][0], "abi_add": add_kind[0],
+                           "nested_fit": nested_fit or "unrecognised"}, "bit_width_arms": len(bw_rows)})
     return problems, info
 
 
